@@ -2,6 +2,7 @@ package build
 
 import (
 	"encoding/binary"
+	"unicode/utf16"
 )
 
 // Parse produces a field map for an existing file (used for the repository's
@@ -151,4 +152,49 @@ func ParseICC(d []byte, base int) *Map {
 	}
 	m.Ends = append(m.Ends, base+132+12*n)
 	return m
+}
+
+// DescCandidates parses a profile leniently and returns the strings a multi-localised description tag offers:
+// the text of every English record if there is one, else of every record.  mluc is false when the description is
+// not an mluc tag (or cannot be located), in which case the description is a single well-defined string.
+// Code that may return "an English record, otherwise some record" is free to return any member of the set.
+func DescCandidates(p []byte) (set []string, mluc bool) {
+	if len(p) < 132 {
+		return nil, false
+	}
+	n := int(binary.BigEndian.Uint32(p[128:]))
+	for i := 0; i < n && 132+12*i+12 <= len(p); i++ {
+		e := p[132+12*i:]
+		if string(e[:4]) != "desc" {
+			continue
+		}
+		off := int(binary.BigEndian.Uint32(e[4:]))
+		if off < 0 || off+16 > len(p) || string(p[off:off+4]) != "mluc" {
+			return nil, false
+		}
+		t := p[off:]
+		cnt := int(binary.BigEndian.Uint32(t[8:]))
+		var en, all []string
+		for r := 0; r < cnt && 16+12*r+12 <= len(t); r++ {
+			rec := t[16+12*r:]
+			ln, so := int(binary.BigEndian.Uint32(rec[4:])), int(binary.BigEndian.Uint32(rec[8:]))
+			if ln < 0 || so < 0 || so+ln > len(t) || so+ln < so {
+				continue
+			}
+			u := make([]uint16, 0, ln/2)
+			for k := 0; k+1 < ln; k += 2 {
+				u = append(u, uint16(t[so+k])<<8|uint16(t[so+k+1]))
+			}
+			s := string(utf16.Decode(u))
+			all = append(all, s)
+			if rec[0] == 'e' && rec[1] == 'n' {
+				en = append(en, s)
+			}
+		}
+		if len(en) > 0 {
+			return en, true
+		}
+		return all, true
+	}
+	return nil, false
 }
